@@ -127,8 +127,10 @@ def main():
     if results and tier == "quick":
         # retry ladder: a function with an undischarged (unknown) obligation is verified once more with a long budget,
         # so that verdicts do not flip when the machine is busy
+        known0, _ = load_known()
         slow = sorted({r["function"].split("[")[0] for r in results
-                       if any(o["status"] == "unknown" for o in r["obligations"])})
+                       if any(o["status"] == "unknown" and match_known(pid, {"kind": "obligation", "obligation": o["id"]}, known0) is None
+                              for o in r["obligations"])})
         if slow:
             again = pyrun.verify(props=[pid], functions=slow, timeout_s=90.0, repo=REPO)
             by = {r["function"]: r for r in again}
